@@ -1,6 +1,7 @@
 package main
 
 import (
+	lisp "github.com/jig/lisp"
 	"context"
 	"fmt"
 	"strings"
@@ -76,6 +77,25 @@ func expect(rep *Report, what string, ast types.MalType, want string, tags ...st
 	idx, line, _ := addProgram(rep, ast, true, tags...)
 	if line != want {
 		rep.Violate(idx, fmt.Sprintf("%s: got %q, the language definition prescribes %q", what, line, want), h.Show(ast))
+	}
+	textRoutes(rep, idx, ast, want, what)
+}
+
+// textRoutes evaluates the program as users write it: its printed text, read without and under a module name (forms then
+// carry source positions). The language definition does not mention positions: the outcome must be the one of the form.
+func textRoutes(rep *Report, idx int, ast types.MalType, want string, what string) {
+	text := lisp.PRINT(ast)
+	for _, module := range []bool{false, true} {
+		core, _, o := evalText(text, module)
+		rep.Histogram[map[bool]string{false: "route:text-no-module", true: "route:text-module"}[module]]++
+		if core == "READERR" {
+			continue
+		}
+		if o.Panic != nil {
+			rep.Violate(idx, fmt.Sprintf("a Go panic escaped when the program was read from text: %v", o.Panic), text)
+		} else if core != want {
+			rep.Violate(idx, fmt.Sprintf("%s: read from text (module name: %v) the program gives %q, expected %q", what, module, core, want), text)
+		}
 	}
 }
 
